@@ -17,7 +17,7 @@ Lines == ndJsonDeserialize(IOEnv.TRACE_FILE)
 VARIABLES l
 vars == <<l>>
 
-InDomain(r) == IsToken(r.key) /\ IsText(r.value) /\ (r.a.dom_set => DomainKnown(r.a.domain)) /\ IsText(r.a.path)
+InDomain(r) == IsToken(r.key) /\ IsText(r.value) /\ (r.a.dom_set => DomainKnownT(r.a.domain, r.a.idna)) /\ IsText(r.a.path)
 
 \* candidates for a clock-derived Expires: clock in [t0 - 1, t1 + 1] shifted by max-age
 SyncOK(txt, r) == LET n == MaxAgeNum(r.a) span == (r.t1d - r.t0d) * 86400 + (r.t1s - r.t0s) IN
@@ -66,7 +66,7 @@ JudgeJar(r) ==
   ELSE IF r.jsecure # (r.a.secure \/ r.a.partitioned) \/ r.jhttponly # r.a.httponly THEN "JarFlags"
   ELSE IF r.jss_set # r.a.ss_set \/ (r.a.ss_set /\ r.jsamesite # SameSiteCanon(r.a.samesite)) THEN "JarSameSite"
   ELSE IF r.a.path_set /\ PctDecode(r.jpath) # PctDecode(Utf8Enc(r.a.path)) THEN "JarPath"
-  ELSE IF r.jdomain # (IF r.a.dom_set THEN DomainCanon(r.a.domain) ELSE r.host) THEN "JarDomain"
+  ELSE IF r.jdomain # (IF r.a.dom_set THEN DomainCanonT(r.a.domain, r.a.idna) ELSE r.host) THEN "JarDomain"
   ELSE IF r.jma_set # (r.a.ma_kind # "none") \/ (r.jma_set /\ (r.jma_neg # r.a.ma_neg \/ r.jma_digits # r.a.ma_digits)) THEN "JarMaxAge"
   ELSE "ok"
 
